@@ -140,6 +140,11 @@ def gen_cases(ctx) -> List[Dict[str, Any]]:
                           "version": "2025-06-18", "idle": idle})
     cases.append({"behaviour": "flood_batches", "exit": "normal", "moment": "before_first", "api": "client_object_versioned",
                   "version": "2025-03-26", "idle": 0.5})
+    # a native cancellation that lands exactly when the child has just died (after the grace period, before the pipes are
+    # released): children that die on SIGTERM while flooding, while idle, and a well-behaved one
+    for b in ("flood", "flood_junk", "never_read", "well_behaved", "sigterm_slow:0.5"):
+        for attempt in range(2):
+            cases.append({"behaviour": b, "exit": "native_cancel_at_child_death", "moment": "before_first", "idle": 0.2, "attempt": attempt})
     # two requests pending on the per-request API under ids of different JSON types when the context is left
     for b in ("never_read", "ignore_sigterm"):
         for e in exits:
